@@ -30,7 +30,13 @@ class Tok:
         return "<%s>" % self.label
 
     def __eq__(self, o):
-        return isinstance(o, Tok) and o.label == self.label
+        if not isinstance(o, Tok) or o.label != self.label:
+            return False
+        # 'usym' = a symbol the *user* created with the same name as a model symbol (sympy symbols with different
+        # assumptions - the model's are real=True - are different objects that compare unequal)
+        if self.kind == "usym" or o.kind == "usym":
+            return self.kind == o.kind
+        return True
 
     def __hash__(self):
         return hash(("Tok", self.label))
@@ -156,6 +162,8 @@ class Abs:
                 return ("callable", e.id)
             if e.id in ("True", "False", "None"):
                 return {"True": True, "False": False, "None": None}[e.id]
+            if e.id in self.consts:
+                return self.consts[e.id]
             g = self._global(e.id)
             if g is not _MISSING:
                 return g
@@ -179,10 +187,13 @@ class Abs:
                 return self.consts[dn]
             if dn in ("np.inf", "numpy.inf", "math.inf", "np.Inf"):
                 return float("inf")
-            if dn in self.summaries or dn in self.types:
+            if dn in self.summaries:
                 return ("callable", dn)
-            if isinstance(e.value, ast.Name) and e.value.id not in self.env and self._is_library(e.value.id):
-                raise Undecided("no summary for %s" % dn)
+            if dn is not None and not self._const_rooted(dn):
+                if dn in self.types:
+                    return ("callable", dn)
+                if isinstance(e.value, ast.Name) and e.value.id not in self.env and self._is_library(e.value.id):
+                    raise Undecided("no summary for %s" % dn)
             base = self.ev(e.value)
             if getattr(base, "_abs_native", False):
                 try:
@@ -498,7 +509,7 @@ class Abs:
             return {self._key(k): v for k, v in (args[0].items() if isinstance(args[0], dict) else args[0])}
         if dn == "str":
             v = args[0]
-            if isinstance(v, Tok) and v.kind == "sym":
+            if isinstance(v, Tok) and v.kind in ("sym", "usym"):
                 return v.label
             if isinstance(v, Obj) and "__str__" in v.attrs:
                 return v.attrs["__str__"]
@@ -545,7 +556,7 @@ class Abs:
                 args[0].attrs[args[1]] = args[2]
             return None
         if dn == "callable":
-            return isinstance(args[0], tuple) and args[0] and args[0][0] in ("callable", "lambda", "bound", "sampler")
+            return isinstance(args[0], tuple) and bool(args[0]) and args[0][0] in ("callable", "lambda", "bound", "sampler", "py", "func", "imeth", "closure", "method")
         if dn == "print":
             return None
         if dn in ("int", "float"):
@@ -854,6 +865,11 @@ class Abs:
                 raise Undecided("statement %s" % type(st).__name__)
 
     # ------------------------------------------------------------ inlining of repo-local code
+    def _const_rooted(self, dn):
+        """a dotted name whose prefix is an abstract library object supplied by the rule (st.beta with `st` modelled)"""
+        parts = dn.split(".")
+        return any(".".join(parts[:k]) in self.consts for k in range(1, len(parts)))
+
     def _is_library(self, name):
         """a module alias such as np / sympy / st / itertools (an imported name that is not a module of the package)"""
         if name in ("np", "numpy", "sympy", "scipy", "st", "math", "itertools", "copy", "functools", "re", "warnings"):
